@@ -43,6 +43,7 @@ type Knobs struct {
 	PSoft       int // group param is soft
 	PFlatten    int // group result is a flatten slice
 	PAs         int // single-result constructor uses As
+	PAsObj      int // As given to a constructor with several results / result objects (applies to every non-group result)
 	PExport     int
 	PObjParam   int // plain param leaf is folded into an In object
 	PObjResult  int // plain result is folded into an Out object
@@ -55,6 +56,7 @@ type Knobs struct {
 	PDecoGroup  int // decorator targets a group
 	PDecoMulti  int // decorator decorates a second key
 	PDecoExtra  int // decorator has an extra dependency
+	PDecoOrphan int // decorator for a key that has no visible constructor (unspecified zone; only purely differential checks use it)
 	PInvokeAll  int // Invoke parameter drawn from visible keys
 	PInfo       int
 	PCallback   int
@@ -84,7 +86,7 @@ func DefaultKnobs() Knobs {
 		Groups: []string{"g", "h"},
 		WScope: 3, WProvide: 10, WDecorate: 3, WInvoke: 7, WVisualize: 0, WString: 0,
 		PAvail: 94, PFresh: 93, POpt: 15, PNamed: 20, PGroupRes: 20, PGroupParam: 20, PSoft: 20, PFlatten: 30,
-		PAs: 15, PExport: 15, PObjParam: 35, PObjResult: 35, PNest: 30, PErr: 25, PVariadic: 5,
+		PAs: 15, PAsObj: 8, PExport: 15, PObjParam: 35, PObjResult: 35, PNest: 30, PErr: 25, PVariadic: 5,
 		PFault: 0, PPanic: 30, PDecoSelf: 75, PDecoGroup: 25, PDecoMulti: 20, PDecoExtra: 30,
 		PInvokeAll: 96, PInfo: 0, PCallback: 0, PDefer: 15, PRecover: 30, PHole: 40, PLate: 70, PCycleKeep: 5,
 		NoFaults: true, AvoidDecoCycle: true, PreferAvailable: true,
@@ -506,6 +508,30 @@ func (g *gen) genProvide(s int) Op {
 			useGroupOpt = true
 		}
 	}
+	if !useAs && !useNameOpt && !useGroupOpt && g.pct(g.k.PAsObj, "asobj") {
+		// dig threads the As option into every non-group result, also
+		// inside result objects: pick interfaces all of them implement
+		var cands []string
+		for _, i := range g.k.Ifaces {
+			ok, any := true, false
+			for _, l := range rl {
+				if l.key.Group != "" {
+					continue
+				}
+				any = true
+				if l.key.T != i && !implements(l.key.T, i) {
+					ok = false
+				}
+			}
+			if ok && any {
+				cands = append(cands, i)
+			}
+		}
+		if len(cands) > 0 {
+			o.As = []string{cands[g.pick(len(cands), "asobji")]}
+			// keys change: keep the predicted model right by rebuilding below
+		}
+	}
 	if useNameOpt || useGroupOpt || useAs {
 		l := rl[0]
 		r := l.result()
@@ -638,7 +664,7 @@ func (g *gen) genDecorate(s int) (Op, bool) {
 	if g.k.NoGroups {
 		groups = nil
 	}
-	if len(singles)+len(groups) == 0 {
+	if len(singles)+len(groups) == 0 && g.k.PDecoOrphan == 0 {
 		return Op{}, false
 	}
 	f := g.newFn()
@@ -652,7 +678,10 @@ func (g *gen) genDecorate(s int) (Op, bool) {
 	for i := 0; i < nkeys; i++ {
 		lbl := fmt.Sprintf("d%d", i)
 		var k MKey
-		if len(groups) > 0 && (len(singles) == 0 || g.pct(g.k.PDecoGroup, lbl+"grp")) {
+		if g.pct(g.k.PDecoOrphan, lbl+"orphan") {
+			u := g.universe()
+			k = u[g.pick(len(u), lbl+"ok")]
+		} else if len(groups) > 0 && (len(singles) == 0 || g.pct(g.k.PDecoGroup, lbl+"grp")) {
 			k = groups[g.pick(len(groups), lbl+"gk")]
 		} else if len(singles) > 0 {
 			k = singles[g.pick(len(singles), lbl+"sk")]
